@@ -631,11 +631,12 @@ const (
 	gExit     // beacon.select.exit: end of the walk, selection lock still held
 	gSelected // patchexpired.selected: selection done and unlocked, nothing patched yet
 	gFetch    // patchfields.fetched: PatchFields holds the treasure object, has not taken its guard yet
+	gGuard    // patchfields.guarded: PatchFields holds the record guard, has not changed anything yet
 	gGap      // beacon.add.enter, first Add of an interferer's save: the record was taken out of the expiration beacons and is not back yet
 )
 
-var gateOf = map[string]int32{"beacon.select.enter": gEnter, "beacon.select.exit": gExit, "patchexpired.selected": gSelected, "beacon.add.enter": gGap, "patchfields.fetched": gFetch}
-var gateName = []string{"none", "enter", "exit", "selected", "fetch", "gap"}
+var gateOf = map[string]int32{"beacon.select.enter": gEnter, "beacon.select.exit": gExit, "patchexpired.selected": gSelected, "beacon.add.enter": gGap, "patchfields.fetched": gFetch, "patchfields.guarded": gGuard}
+var gateName = []string{"none", "enter", "exit", "selected", "fetch", "guard", "gap"}
 
 type mproc struct {
 	name    string
@@ -648,6 +649,7 @@ type mproc struct {
 	gating  atomic.Bool
 	gapSeen atomic.Bool // the gap gate is offered once per call (the first beacon Add of a save of an existing record)
 	isIntf  bool
+	isPatch bool
 	rng     *rand.Rand // stress: schedule fuzzing
 }
 
@@ -684,6 +686,9 @@ func installYield(fuzz bool) {
 				return
 			}
 		}
+		if (g == gFetch || g == gGuard) && !mp.isPatch {
+			return
+		}
 		mp.gate.Store(g)
 		mp.stopped.Store(true)
 		<-mp.release
@@ -701,6 +706,7 @@ func (mp *mproc) start(h *history, o Op) string {
 	mp.gate.Store(gNone)
 	mp.gapSeen.Store(o.Kind != "patch") // only a patch of an existing record re-files without creating
 	mp.isIntf = !o.claimer()
+	mp.isPatch = o.Kind == "patch"
 	ready := make(chan struct{})
 	go func() {
 		id := sched.GoID()
@@ -812,7 +818,7 @@ func replayMode(in, out, resFile string) error {
 			} else {
 				got = mp.advance()
 			}
-			for (got == "gap" || got == "fetch") && st.Want != got { // the schedule does not stop at this gate
+			for (got == "gap" || got == "fetch" || got == "guard") && st.Want != got { // the schedule does not stop at this gate
 				got = mp.advance()
 			}
 			res.Observed = append(res.Observed, st.P+":"+got)
